@@ -49,6 +49,13 @@ def used(obj, block, op):
     call caches in or does to the object must not show in the second (cached key schedules reversed in place, spent
     iterators, flags left behind by a refused call)."""
     first = obj.dec if op == 'enc' else obj.enc
+    b0 = block()
+    if isinstance(b0, (bytes, bytearray)) and len(b0) > 0:
+        # a refused call (operand one byte short) comes first: an exception must not leave anything behind either
+        try:
+            first(bytes(b0[:-1]))
+        except Exception as e:
+            if type(e).__name__ == '_Timeout': raise
     try:
         first(block())
     except Exception as e:
